@@ -105,7 +105,7 @@ BASE_CLASSES = {"Pt": ["x", "y"], "Pt3": ["x", "y", "name"], "Ctx": ["name", "su
 def make_unit(rng: random.Random, name: str, dialect: str) -> dict[str, Any]:
     hostile_ok = dialect == "mem"
     if rng.random() < (0.4 if dialect == "c05" else 0.45):
-        u = free_function(rng, name + "_f", hostile=hostile_ok and rng.random() < 0.7)
+        u = free_function(rng, name + "_f", hostile=rng.random() < (0.7 if hostile_ok else 0.2))
     else:
         weights = []
         for f, w in TEMPLATES:
@@ -115,7 +115,7 @@ def make_unit(rng: random.Random, name: str, dialect: str) -> dict[str, Any]:
                 w *= 0.4
             weights.append(w)
         f = rng.choices([t[0] for t in TEMPLATES], weights=weights)[0]
-        u = f(rng, name, hostile_ok and rng.random() < 0.6)
+        u = f(rng, name, rng.random() < (0.6 if hostile_ok else 0.12))
     u["name"] = name
     u.setdefault("classes", {})
     u.setdefault("prelude", "")
